@@ -86,6 +86,19 @@ def in_domain(js, method, cfg=None):
             have_dt = True
         if e[0] in ('S', 'T', 'SC'):
             started = True
+    if method == 'xhtml':
+        # an XML parser reads documents: one root element, nothing but white space, comments and PIs around it
+        depth = roots = 0
+        for e in js:
+            if e[0] == 'S':
+                roots += depth == 0
+                depth += 1
+            elif e[0] == 'E':
+                depth -= 1
+            elif depth == 0 and (e[0] in ('SC', 'EC') or (e[0] == 'T' and e[1].strip(' \t\n\r'))):
+                return 'not-a-document'
+        if roots != 1:
+            return 'not-a-document'
     rawrun = ''
     incd = False
     cdrun = ''
